@@ -212,7 +212,11 @@ def run(ob, su, want_prefix: str) -> Dict[str, int]:
                 plan.append((r, None))
         saved_steps = interp.MAX_STEPS
         interp.MAX_STEPS = 60000
+        streak = 0
         for r, face in plan:
+            if streak >= 6:
+                stats["stopped"] = "six scenarios in a row were not modelled: the function uses constructs the interpreter does not follow"
+                break
             try:
                 fam = Family(su, r, face)
             except (Budget, _Unmodelled):
@@ -220,6 +224,9 @@ def run(ob, su, want_prefix: str) -> Dict[str, int]:
             if not fam.ok:
                 continue
             for title, names in scenarios(fam):
+                if streak >= 6:
+                    break
+                before_nm = stats["not_modelled"]
                 stats["scenarios"] += 1
                 tag = (f"a5.core.compact.compact on {title} (cells of resolution {r}, " +
                        (f"face {face}, segment / position symbolic)" if face is not None else "face / segment / position symbolic)"))
@@ -228,9 +235,11 @@ def run(ob, su, want_prefix: str) -> Dict[str, int]:
                     outs = interp.run_function(COMPACT, "compact", [lst])
                 except (Budget, _Unmodelled, RecursionError) as e:
                     stats["not_modelled"] += 1
+                    streak += 1
                     continue
                 if len(outs) != 1 or outs[0].state.path:
                     stats["not_modelled"] += 1
+                    streak += 1
                     continue
                 o = outs[0]
                 if o.kind == "raise":
@@ -263,6 +272,7 @@ def run(ob, su, want_prefix: str) -> Dict[str, int]:
                        f"input {_show(names)} -> {_show(got)}; canonical: {_show(want)}")
                 else:
                     ob("C09.8", f"{tag}: canonical result", core.DISCHARGED, where, f"{_show(names)} -> {_show(got)}")
+                streak = 0
     finally:
         interp.unroll_ranges = saved
         if "saved_steps" in locals():
